@@ -34,9 +34,12 @@ def tree_of_dimod():
     return os.path.dirname(os.path.dirname(os.path.abspath(dimod.__file__)))
 
 
-def ensure_driver(tree=None):
+def ensure_driver(tree=None, compilers=("clang++", "g++")):
     """compile cpp/driver.cpp against <tree>/dimod/include; cached on a hash of
-    the headers, the driver and the flags.  Returns (path, compiler, error)."""
+    the headers, the driver, the flags and the compiler preference.  Returns (path, compiler, error).
+    compilers=("g++",) gives the build used for the cq.* comparison: the order in which
+    add_quadratic(enforce_variable(u), enforce_variable(v)) evaluates its arguments is unspecified
+    in C++; Model/Expr.v mirrors the GCC-built extension (v first), so that comparison needs GCC."""
     # C20_HEADERS_TREE: test-only override used by the mutation sanity script (headers from another tree)
     tree = tree or os.environ.get("C20_HEADERS_TREE") or tree_of_dimod()
     inc = os.path.join(tree, "dimod", "include")
@@ -49,18 +52,19 @@ def ensure_driver(tree=None):
         h.update(os.path.relpath(p, tree if p != DRIVER_SRC else ROOT).encode())
         h.update(open(p, "rb").read())
     h.update(" ".join(FLAGS).encode())
+    h.update("|".join(compilers).encode())
     key = h.hexdigest()[:20]
     os.makedirs(CACHE, exist_ok=True)
     out = os.path.join(CACHE, key)
     exe = os.path.join(out, "driver")
-    with open(os.path.join(CACHE, ".lock"), "w") as lk:
+    with open(os.path.join(CACHE, ".lock-" + key), "w") as lk:
         fcntl.flock(lk, fcntl.LOCK_EX)
         if os.path.exists(exe):
             os.utime(exe)
             return exe, open(os.path.join(out, "compiler")).read().strip(), None
         os.makedirs(out, exist_ok=True)
         errs = []
-        for cxx in ("clang++", "g++"):
+        for cxx in compilers:
             r = subprocess.run([cxx] + FLAGS + ["-I", inc, DRIVER_SRC, "-o", exe + ".tmp"],
                                capture_output=True, text=True)
             ok = r.returncode == 0
